@@ -3,7 +3,7 @@ EXTENDS TypeGraph, Json
 (* Gen mode: every finished hash case and every state of a mutation script is one vector.
    Graphs, transformations and steps are printed as positional arrays (checks/c13.py names the
    fields again): the record form is five times the size. *)
-EncA(a) == <<a.name, a.ref.p, a.ref.n, a.desc, a.req, a.val, a.meta, a.tags.name, a.tags.type, a.x, a.enum>>
+EncA(a) == <<a.name, a.ref.p, a.ref.n, a.desc, a.req, a.val, a.meta, a.tags.name, a.tags.type, a.x, a.enum, a.al>>
 EncN(nd) == <<nd.kind, nd.name, [k \in 1..Len(nd.attrs) |-> EncA(nd.attrs[k])]>>
 EncG(gg) == <<gg.root.p, gg.root.n, [i \in 1..Len(gg.nodes) |-> EncN(gg.nodes[i])]>>
 EncT(t) == <<t.op, t.node, t.idx, t.perm, t.tags.name, t.tags.type, t.to>>
